@@ -383,6 +383,18 @@ func (exp *SplitExp) resolveRefs(self, siblings map[string]*ResolvedBinding,
 	case *BoundReference:
 		re, err := s.Exp.resolveRefs(self, siblings, lookup)
 		if err == nil {
+			if d, ok := re.(*DisabledExp); ok {
+				// The referenced call may be disabled at run time, in which
+				// case its output is null.  The source is still that
+				// call's output.
+				inner := d.Value
+				for dd, ok := inner.(*DisabledExp); ok; dd, ok = inner.(*DisabledExp) {
+					inner = dd.Value
+				}
+				if ref, ok := inner.(*RefExp); ok {
+					re = ref
+				}
+			}
 			switch rs := re.(type) {
 			case *RefExp:
 				src = &BoundReference{
